@@ -119,8 +119,9 @@ func TestC09(t *testing.T) {
 
 		// target address state
 		var target sdk.AccAddress
-		tk := rapid.IntRange(0, 5).Draw(t, "targetState")
-		targetKinds := []string{"absent", "base_no_key", "base_with_key_and_sequence", "continuous_vesting", "module_account", "vesting_sender_itself"}
+		tk := rapid.IntRange(0, 8).Draw(t, "targetState")
+		targetKinds := []string{"absent", "base_no_key", "base_with_key_and_sequence", "continuous_vesting", "module_account", "vesting_sender_itself",
+			"periodic_vesting", "delayed_vesting", "permanent_locked"}
 		switch tk {
 		case 0:
 			target = v.NextFresh()
@@ -138,6 +139,25 @@ func TestC09(t *testing.T) {
 			if rapid.Bool().Draw(t, "targetDelegated") {
 				v.Delegate(target, sdk.NewInt(100))
 			}
+		case 6, 7, 8:
+			// the other vesting account kinds of cosmos-sdk's x/auth/vesting (the app routes its messages too)
+			target = v.NextFresh()
+			ov := sdk.NewCoins(sdk.NewInt64Coin(Denom, 9000))
+			base := authtypes.NewBaseAccountWithAddress(target)
+			var acc authtypes.AccountI
+			switch tk {
+			case 6:
+				acc = authvesting.NewPeriodicVestingAccount(base, ov, nowS-10, authvesting.Periods{{Length: 1000, Amount: sdk.NewCoins(sdk.NewInt64Coin(Denom, 4000))}, {Length: 2000, Amount: sdk.NewCoins(sdk.NewInt64Coin(Denom, 5000))}})
+			case 7:
+				acc = authvesting.NewDelayedVestingAccount(base, ov, nowS+5000)
+			default:
+				acc = authvesting.NewPermanentLockedAccount(base, ov)
+			}
+			acc = v.App.AccountKeeper.NewAccount(v.Ctx, acc)
+			_ = acc.SetPubKey(FreshAcc(v.fresh).Priv.PubKey())
+			_ = acc.SetSequence(uint64(rapid.IntRange(1, 50).Draw(t, "otherVestingSeq")))
+			v.App.AccountKeeper.SetAccount(v.Ctx, acc)
+			FundAccount(v.App, v.Ctx, target, ov)
 		case 4:
 			target = ModuleAddr([]string{"fee_collector", "cfevesting", "gov", "distributor_main_account"}[rapid.IntRange(0, 3).Draw(t, "module")])
 		default:
